@@ -35,14 +35,6 @@ def correspond(c, exe_m, stream, seed, n, tier):
 
 
 def model_exe():
-    """the extracted model depends on Coq sources only (not on /repo): rebuild it when one of them is newer"""
-    exe = os.path.join(V.BUILD, "extract", "c11", "c11model")
-    srcs = [os.path.join(V.ROOT, "ml", "driver.ml"), os.path.join(V.COQ, "extract", "ExtractC11.v")]
-    for d in ("c11", "common"):
-        dd = os.path.join(V.COQ, d)
-        srcs += [os.path.join(dd, f) for f in os.listdir(dd) if f.endswith(".v")]
-    if os.path.exists(exe) and all(os.path.getmtime(f) < os.path.getmtime(exe) for f in srcs):
-        return exe, "up to date"
     return V.build_model("c11", "extract/ExtractC11.v", "c11model", deps=["c11/Run.v"])
 
 
@@ -81,7 +73,10 @@ def run(tier, seed):
             "nesting shapes, int/*big.Int/float64/json.Number, +-2^53+-1, int64 limits, huge bigs, -0.0, subnormals, NaN, +-Inf) "
             "judged by the extracted model and, on the domain, by the exact-rational specification order; reflexivity, antisymmetry "
             "and transitivity over ALL ordered in-domain triples checked on the implementation's own results. "
-            "c11nat: sort, sort_by, group_by, unique, unique_by, min, max, min_by, max_by, bsearch, array -, indices/index/rindex, "
+            "c11nat: a deterministic block ([v,v], [v,v,w], [w,v,v], [v] for every in-domain universe value v, null first, x every sort-family "
+            "builtin), then sort, sort_by, group_by, unique, unique_by, min, max, min_by, max_by (key expressions with 0, 1, 2 and a varying "
+            "number of outputs per element: .[1], .ks[], .a?, .[]?, (.a,.b), empty, select(.a > 0), .[0:2][]; the key is the ARRAY of outputs "
+            "as builtin.jq's map([f]) makes it), bsearch, array -, indices/index/rindex, "
             "keys, [.[]], tojson/Marshal key order on random arrays (length 0..64, frequent ties between distinguishable equal "
             "values) of universe values; distinct = distinct case lines")
     return c.finish(rule, extra_cov=dict(harness_stats=stats, phase_seconds=times))
